@@ -176,7 +176,12 @@ Definition translate_path (c : config) (extra : str) : option str :=
   if starts_with (c_target c) p then Some p else None.
 
 (* ---------------- lookup part of _handle ---------------- *)
-Inductive fsres := FFound (id : str) | FNone | FRaise.
+(* find_system: an id, None, an exception derived from Exception (any class: RuntimeError, sqlite3.Error, a custom
+   class ...), or one derived from BaseException only (KeyboardInterrupt, SystemExit ...: `except Exception` lets it pass) *)
+Inductive fsres := FFound (id : str) | FNone | FRaise | FRaiseBase.
+(* get_data: the data (its tag), or an exception of the one or the other kind *)
+Inductive gdres := GOk (d : str) | GRaise | GRaiseBase.
+Definition gd_data (g : gdres) : option str := match g with GOk d => Some d | _ => None end.
 Inductive call := CFind (key value : str) | CGet (id : str).
 (* what the template engine receives besides request_info *)
 Record tcontext := { t_id : option str; t_data : option str }.
@@ -187,21 +192,24 @@ Inductive plan :=
 | PServe (path : str) (tc : option tcontext).  (* tc = None: no template engine *)
 
 Section Handle.
-  Variable transform : str -> str.
+  Variable transform : str -> option str.     (* None: the transformation chain raises (e.g. raise_error_if_malformed) *)
   Variable find_system : str -> str -> fsres.
-  Variable get_data : str -> option str.      (* None: get_data raises *)
+  Variable get_data : str -> gdres.
 
   (* returns the call log and, unless an exception propagates, (system_id, data) *)
   Definition lookup (c : config) (r : rp) (x : ctx) : list call * option (option str * option str) :=
     if extract r then
       let key := c_lookup_key c in
-      let v := transform (match raw_value x with Some v => v | None => [] end) in
+      match transform (match raw_value x with Some v => v | None => [] end) with
+      | None => ([], None)                      (* not inside any try: propagates before the data source is used *)
+      | Some v =>
       let '(log1, sid) :=
         if eqb_str key SYSTEM_ID then ([], Some (Some v))
         else match find_system key v with
              | FFound i => ([CFind key v], Some (Some i))
              | FNone => ([CFind key v], Some None)
              | FRaise => ([CFind key v], if c_ds_ignore c then Some None else None)
+             | FRaiseBase => ([CFind key v], None)
              end in
       match sid with
       | None => (log1, None)
@@ -209,10 +217,12 @@ Section Handle.
       | Some (Some i) =>
           if c_template c then
             match get_data i with
-            | Some d => (log1 ++ [CGet i], Some (Some i, Some d))
-            | None => (log1 ++ [CGet i], if c_ds_ignore c then Some (Some i, None) else None)
+            | GOk d => (log1 ++ [CGet i], Some (Some i, Some d))
+            | GRaise => (log1 ++ [CGet i], if c_ds_ignore c then Some (Some i, None) else None)
+            | GRaiseBase => (log1 ++ [CGet i], None)
             end
           else (log1, Some (Some i, None))
+      end
       end
     else ([], Some (None, None)).
 
@@ -256,8 +266,8 @@ Definition serve (old_232 : bool) (fs_open : str -> fsr) (path : str) (tc : opti
   end.
 
 (* one request after a successful match: data-source calls, paths opened, result *)
-Definition handle (old_232 : bool) (transform : str -> str) (find_system : str -> str -> fsres)
-    (get_data : str -> option str) (fs_open : str -> fsr)
+Definition handle (old_232 : bool) (transform : str -> option str) (find_system : str -> str -> fsres)
+    (get_data : str -> gdres) (fs_open : str -> fsr)
     (c : config) (r : rp) (x : ctx) : list call * list str * result :=
   match handle_plan transform find_system get_data c r x with
   | (log, PNotFound) => (log, [], RNotFound)
